@@ -32,6 +32,12 @@ def c05_family(quick=True):
     T["arg.dynarray.int128.elem"] = _fn("x: DynArray[int128, 2]", "int128", "return x[0]")
     T["arg.dynarray.struct.mixed"] = _fn("x: DynArray[S, 2]", "DynArray[S, 2]", "return x", pre=S_MIX)
     T["arg.dynarray.struct.mixed.len"] = _fn("x: DynArray[S, 2]", "uint256", "return len(x)", pre=S_MIX)
+    if not quick and False:  # dynamic return data of external calls: the reference semantics is not validated for it yet (DESIGN.md 3/C05)
+        IFD = "interface I:\n    def bs(a: uint256) -> Bytes[5]: view\n    def tag(a: uint256, b: uint256) -> String[4]: view\n    def arr(a: uint256) -> DynArray[uint8, 2]: view\n    def setb(a: uint256) -> Bytes[5]: nonpayable\n\n"
+        T["extcall.ret.bytes"] = IFD + _fn("t: address, a: uint256", "Bytes[5]", "return staticcall I(t).bs(a)")
+        T["extcall.ret.string.two-args"] = IFD + _fn("t: address, a: uint256, b: uint256", "String[4]", "return staticcall I(t).tag(a, b)")
+        T["extcall.ret.dynarray"] = IFD + _fn("t: address, a: uint256", "DynArray[uint8, 2]", "return staticcall I(t).arr(a)")
+        T["extcall.ret.bytes.default"] = IFD + _fn("t: address, a: uint256", "Bytes[5]", "return extcall I(t).setb(a, default_return_value=b\"dflt\")")
     T["arg.kw.bytes"] = "@external\ndef f(x: uint256, b: Bytes[4] = b\"ab\", y: uint256 = 7) -> uint256:\n    return x ^ (y << 8) ^ (len(b) << 16)\n"
     return T
 
@@ -89,5 +95,10 @@ def c04_family(quick=True):
     T["bytes.extract32"] = _fn("x: Bytes[40], s: uint256", "bytes32", "return extract32(x, s)")
     T["bytes.concat"] = _fn("a: Bytes[4], b: bytes2, c: Bytes[3]", "Bytes[9]", "return concat(a, b, c)")
     T["bytes.concat.bm"] = _fn("a: bytes16, b: bytes12", "Bytes[28]", "return concat(a, b)")
+    # the concat buffer is the last allocation of an internal frame; the caller's variables live right behind it
+    T["bytes.concat.callee-frame.16-16"] = ("@internal\ndef _key(hi: bytes16, lo: bytes16) -> bytes32:\n    return keccak256(concat(hi, lo))\n\n"
+                                            + _fn("hi: bytes16, lo: bytes16", "(bytes16, bytes32)", "k: bytes32 = self._key(hi, lo)\nreturn hi, k"))
+    T["bytes.concat.callee-frame.20-12"] = ("@internal\ndef _key2(a: bytes20, b: bytes12) -> bytes32:\n    return keccak256(concat(a, b))\n\n"
+                                            + _fn("a: bytes20, b: bytes12", "(bytes20, bytes32)", "k: bytes32 = self._key2(a, b)\nreturn a, k"))
     T["bytes.len-dependent-copy"] = "b: Bytes[8]\n\n" + _fn("x: Bytes[8]", "uint256", "self.b = x\nt: Bytes[8] = self.b\nreturn len(t)")
     return T
